@@ -390,6 +390,10 @@ class Engine(Interp):
             ok_a = self.assume_cond(a, c[1], want)
             b = st
             ok_b = self.assume_cond(b, c[1], not want)
+            if ok_a and ok_b and c[1][0] in ('Eq', 'Ne', 'Lt', 'Le', 'Gt', 'Ge', 'Not'):
+                # a genuine branch on an integer comparison: remember which way this path went
+                a.log('cond', c[1], want)
+                b.log('cond', c[1], not want)
             return (a if ok_a else None, b if ok_b else None)
         a = st.fork()
         tag = c[1] if c[0] == 'boolu' else ('?',)
